@@ -16,9 +16,13 @@ pub fn run(o: &Opts) -> i32 {
         &o.repo,
         &o.verif,
     );
+    let (shard, shards) = (o.shard, o.shards);
     let golden: Golden = seam::epoch(0, || {
         let mut g = Golden::new();
         for (ci, case) in cases.iter().enumerate() {
+            if ci % shards != shard {
+                continue;
+            }
             for (ai, args) in case.args.iter().enumerate() {
                 for debug in [false, true] {
                     let (outcome, _) = ops::compile_direct(&case.text, args, debug);
@@ -44,6 +48,9 @@ pub fn run(o: &Opts) -> i32 {
     let mut extra_violations = Vec::new();
     let mut extra_pairs_checked = 0u64;
     for (ci, case) in cases.iter().enumerate() {
+        if ci % shards != shard {
+            continue;
+        }
         for (sup, exact) in case.extra_pairs() {
             for debug in [false, true] {
                 if let (Some(a @ ops::Outcome::Ok { .. }), Some(b @ ops::Outcome::Ok { .. })) = (golden.get(&(ci, exact, debug)), golden.get(&(ci, sup, debug))) {
@@ -76,7 +83,7 @@ pub fn run(o: &Opts) -> i32 {
         "case_ids": cases.iter().map(|c| c.id.clone()).collect::<Vec<_>>(),
     });
     std::fs::create_dir_all(&o.out).ok();
-    let path = o.out.join("golden.json");
+    let path = if shards > 1 { o.out.join(format!("golden-{shard}.json")) } else { o.out.join("golden.json") };
     if std::fs::write(&path, serde_json::to_string(&doc).unwrap()).is_err() {
         eprintln!("golden: cannot write {}", path.display());
         return 2;
